@@ -70,7 +70,7 @@ def non_pointwise(t):
             l = last(x[1])
             if l not in POINTWISE:
                 bad.append(l)
-        elif x[0] == "hof" and x[1] not in ("all", "map"):
+        elif x[0] == "hof" and x[1] not in ("all", "map", "find"):
             bad.append(x[1])
     return bad
 
@@ -137,7 +137,7 @@ def run(prog, rep):
                 if st.kind == "op":
                     # stabilisation test: the condition of a while loop comparing the iterate with its previous value
                     loops = [info for lid, info in s.loops.items() if info.get("kind") == "while" and info.get("cond") == st.term or
-                             (info.get("cond") and info["cond"][0] == "bin" and info["cond"][1] == st.name and (info["cond"][2], info["cond"][3]) == tuple(st.args))]
+                             (info.get("cond") and info["cond"][0] == "bin" and info["cond"][1] == st.name and {info["cond"][2], info["cond"][3]} == set(st.args))]
                     if loops:
                         why = "termination test of a fixed-point loop (monotone iteration: the limit is the pointwise fixed point)"
                 elif l == "is_empty":
@@ -151,7 +151,7 @@ def run(prog, rep):
                           f"colour-global predicate `{l or st.name}` on a coloured set in {f.path} (reachable from eval_node) is neither a fixed-point termination test nor the "
                           "empty-universe shortcut: a decision taken for all colours at once makes one colour's answer depend on the others")
     rep.floor("C20-R1", 3)
-    rep.floor("C20-R2", 4)
+    rep.floor("C20-R2", 3)
     # R3: closure - the value of every node shape is built from pointwise primitives only
     import c03
     for key, shape in c03.all_shapes():
